@@ -3,6 +3,7 @@ package main
 import (
 	"fmt"
 	"go/types"
+	"os"
 
 	"golang.org/x/tools/go/ssa"
 )
@@ -49,6 +50,7 @@ type scalarObj struct {
 type sigSchemeObj struct {
 	kind     string // "bls" | "schnorr"
 	keyGroup *groupObj
+	sigGroup *groupObj // bls: signatures are points of this group
 	sigLen   int
 }
 
@@ -279,9 +281,9 @@ func init() {
 		return func(p *Path, fn *ssa.Function, a []Value) Value {
 			s := suiteOf(p, a[0])
 			if onG1 {
-				return p.mkSigScheme(&sigSchemeObj{kind: "bls", keyGroup: s.g2, sigLen: s.g1.pointLen})
+				return p.mkSigScheme(&sigSchemeObj{kind: "bls", keyGroup: s.g2, sigGroup: s.g1, sigLen: s.g1.pointLen})
 			}
-			return p.mkSigScheme(&sigSchemeObj{kind: "bls", keyGroup: s.g1, sigLen: s.g2.pointLen})
+			return p.mkSigScheme(&sigSchemeObj{kind: "bls", keyGroup: s.g1, sigGroup: s.g2, sigLen: s.g2.pointLen})
 		}
 	}
 	reg("github.com/drand/kyber/sign/bls.NewSchemeOnG1", blsNew(true))
@@ -319,6 +321,9 @@ func init() {
 		// crypto.Scheme{Name, SigGroup, KeyGroup, ...}
 		g := groupOf(p, sch[2])
 		return p.mkPoint(g, p.expand("ptfrom:"+g.name, bytesOf(p, a[1]), g.pointLen))
+	})
+	reg("github.com/drand/drand/v2/internal/zzfake.Logger", func(p *Path, fn *ssa.Function, a []Value) Value {
+		return Iface{T: p.eng.opaqueT, V: &Native{Kind: "opaque", Data: "logger"}}
 	})
 	reg("github.com/drand/drand/v2/internal/zzfake.Stream", func(p *Path, fn *ssa.Function, a []Value) Value {
 		return Iface{T: p.eng.nativeT("zzstream"), V: &Native{Kind: "zzstream", Data: &streamObj{seed: strArg(p, a[0])}}}
@@ -399,6 +404,13 @@ func init() {
 		}
 		sc := &sigSchemeObj{kind: "bls", sigLen: g.pointLen}
 		sig := p.idealSign(sc, first.pub.eval.commits[0], first.msg)
+		if len(goods) < len(first.pub.eval.commits) {
+			// fewer shares than the degree of the sharing polynomial + 1: interpolation yields some other
+			// point (not the group signature, except with negligible probability)
+			junk := p.freshBytes("underdetermined", g.pointLen)
+			p.addSide(Not(bytesEqTerm(junk, sig)))
+			return Tuple{p.mkPoint(g, junk), Iface{}}
+		}
 		return Tuple{p.mkPoint(g, sig), Iface{}}
 	})
 }
@@ -538,7 +550,11 @@ func (p *Path) kyberMethod(nat *Native, name string, args []Value, sig *types.Si
 		case "Sign":
 			sec := scalarOf(p, args[0])
 			p.secretUse(sec.tag)
-			return Tuple{sliceOfBytes(p.idealSign(ss, p.pubTag(sec), bytesOf(p, args[1]))), Iface{}}
+			sg := p.idealSign(ss, p.pubTag(sec), bytesOf(p, args[1]))
+			if ss.sigGroup != nil {
+				p.markValid(ss.sigGroup, sg) // a genuine signature is a valid point encoding
+			}
+			return Tuple{sliceOfBytes(sg), Iface{}}
 		case "Verify":
 			pub := pointOf(p, args[0])
 			msg := bytesOf(p, args[1])
@@ -547,8 +563,15 @@ func (p *Path) kyberMethod(nat *Native, name string, args []Value, sig *types.Si
 				return p.newError(StrC("kyber: invalid signature length"), nil)
 			}
 			exp := p.idealSign(ss, pub.tag, msg)
+			if p.eng.traceOn {
+				eqt := bytesEqTerm(sig, exp)
+				fmt.Fprintf(os.Stderr, "  ideal Verify: eq const=%v val=%v eval=%v\n", eqt.IsConst(), eqt.IsTrue(), pub.eval != nil)
+			}
 			if p.Fork(bytesEqTerm(sig, exp)) {
 				p.verified = append(p.verified, &verifiedSig{pub: pub, msg: msg, sig: sig})
+				if ss.sigGroup != nil {
+					p.markValid(ss.sigGroup, sig) // verification decodes the signature point first
+				}
 				return Iface{}
 			}
 			return p.newError(StrC("kyber: invalid signature"), nil)
